@@ -305,10 +305,14 @@ def triangular_loops(stmt):
     for k in range(len(loops) - 1, 0, -1):
         inner = loops[k]
         it = inner.iter
-        if isinstance(it, ast.Call) and isinstance(it.func, ast.Name) and it.func.id == "range" and len(it.args) >= 2 \
-                and isinstance(it.args[0], ast.Name):
+        if isinstance(it, ast.Call) and isinstance(it.func, ast.Name) and it.func.id == "range" and len(it.args) >= 2:
+            lo = it.args[0]
+            if isinstance(lo, ast.BinOp) and isinstance(lo.op, ast.Add) and isinstance(lo.right, ast.Constant) and isinstance(lo.left, ast.Name):
+                lo = lo.left        # range(i + 1, n): strictly upper triangle
+            if not isinstance(lo, ast.Name):
+                continue
             for outer in loops[:k]:
-                if outer.target.id == it.args[0].id:
+                if outer.target.id == lo.id:
                     return outer.target.id, inner.target.id
     return None
 
